@@ -324,7 +324,7 @@ def linear_same(ents):
         for j in range(i):
             if (ents[i][1] and ents[i][1] == ents[j][1]) or ents[i][4] == ents[j][4]:
                 parent[find(i)] = find(j)
-    return lambda i, j: find(i) == find(j)
+    return (lambda i, j: find(i) == find(j)), find
 
 
 def flat_lrs(ranges, names=None):
@@ -397,8 +397,11 @@ def run(tier):
         if "err" in o:
             continue
         r = [(0, 1, x[0], g) for x in e]
-        same = linear_same(e)
-        sizes_agree = all(e[i][0] == e[j][0] for i in range(len(e)) for j in range(i) if same(i, j)) if len(e) <= 60 else True
+        same, root = linear_same(e)
+        groups = {}
+        for i in range(len(e)):
+            groups.setdefault(root(i), set()).add(e[i][0])
+        sizes_agree = all(len(v) == 1 for v in groups.values())
         if len(e) > 1:
             nontrivial += 1
         if o["guard"]:
